@@ -9,6 +9,11 @@ are looped outermost-to-innermost, no two activities carry the same (space, time
 import re
 
 import specgen
+import specgen_mixed
+import compilepool
+import displaystrip
+import rankrename
+import specgen_occ2
 import runlib
 import execlib
 import popgen
@@ -41,55 +46,176 @@ def coord_on_flat(spec, st):
     return False
 
 
+def mixes_leader_and_follower_levels(mapping, out):
+    """the loop order holds levels of a shape-partitioned rank AND levels of a rank that follows it (e.g. [Q1, W0, S])"""
+    part = (mapping.get("partitioning") or {}).get(out, {})
+    loop = (mapping.get("loop-order") or {}).get(out) or []
+    for r, ds in part.items():
+        m = re.match(r'^follow\((\w+)\)$', ds[0]) if ds else None
+        if m:
+            lead = m.group(1)
+            if any(re.match(r'^%s\d$' % re.escape(r), x) for x in loop) and any(re.match(r'^%s\d$' % re.escape(lead), x) for x in loop):
+                return True
+    return False
+
+
+def cascade_items(rng, n):
+    """mixed cascades (tools/specgen_mixed.py) in which most Einsums carry their own spacetime"""
+    out = []
+    for _ in range(n):
+        it = specgen_mixed.gen_mixed_cascade(rng, n=rng.randint(2, 3), spacetime_p=0.7)
+        sts = it["mapping"].get("spacetime") or {}
+        if not sts:
+            continue
+        out.append({"yaml": it["yaml"], "syms": it["syms"], "kind": "cascade+spacetime", "mapping": it["mapping"], "decl": it["decl"],
+                    "exprs": it["exprs"], "spacetimes": sts, "mixed": it})
+    return out
+
+
+def plain_yaml(it):
+    """the same specification without its spacetime section(s)"""
+    mp = {k: v for k, v in it["mapping"].items() if k != "spacetime"}
+    if "es" in it:
+        return specgen.yaml_of(it["es"]["decl"], [it["es"]["expr"]], mp)
+    return specgen.yaml_of(it["decl"], it["exprs"], mp)
+
+
 def run(ctx):
     rng = ctx.rng
     q = ctx.quick()
     base = list(popgen.plain(rng, 110 if q else 900)) + list(popgen.shape(rng, 110 if q else 900)) + list(popgen.occupancy(rng, 160 if q else 1300))
+    # occupancy levels with a different leader per level (tools/specgen_occ2.py)
+    base += [x for x in (specgen_occ2.multi_leader_occupancy(rng) for _ in range(60 if q else 500)) if x]
     pops = list(popgen.with_spacetime(rng, base))
-    cases = []
-    stats = {"by_kind": {}, "rejected": 0, "crashed": {}, "slip": 0, "coord_style": 0, "well_ordered": 0}
+    # index arithmetic (C04's population) and cascades under a display: executed in pairs (with / without the spacetime)
+    pops += list(popgen.with_spacetime(rng, list(popgen.affine(rng, 130 if q else 1100))))
+    pops += cascade_items(rng, 45 if q else 400)
+    nren = 0
     for it in pops:
-        try:
-            spec = runlib.Spec(it["yaml"])
-            text = spec.compile()
-        except ValueError:
-            stats["rejected"] += 1
+        it["plain_yaml"] = plain_yaml(it)
+        if "es" in it and not it["kind"].startswith("affine") and rng.random() < 0.4:
+            # rank names other than J, K, M, N (names of common tensors, names ending in I, two-letter names): tools/rankrename.py
+            rm = rankrename.make_map(rng)
+            it["yaml"], it["plain_yaml"] = rankrename.yaml_text(it["yaml"], rm), rankrename.yaml_text(it["plain_yaml"], rm)
+            it["mapping"] = rankrename.mapping(it["mapping"], rm)
+            it["spacetime"] = rankrename.spacetime(it["spacetime"], rm)
+            nren += 1
+    res = compilepool.compile_many([y for it in pops for y in (it["yaml"], it["plain_yaml"])])
+    cases = []
+    stats = {"by_kind": {}, "rejected": 0, "crashed": {}, "slip": 0, "coord_style": 0, "well_ordered": 0, "static_display_only": 0,
+             "paired_executions": 0, "plain_fails_too": 0, "plain_wrong_too": 0, "plain_rejected": 0, "ranks_renamed": nren}
+    bad = 0
+    static_bad = []
+    for k, it in enumerate(pops):
+        a, b = res[2 * k], res[2 * k + 1]
+        sts = list(it["spacetimes"].values()) if "spacetimes" in it else [it["spacetime"]]
+        out0 = next(iter(it["mapping"].get("spacetime", {})), None)
+        if a[0] == "E":
+            if a[1].startswith("ValueError"):
+                stats["rejected"] += 1
+            else:
+                nm = a[1].split(":")[0]
+                stats["crashed"][nm] = stats["crashed"].get(nm, 0) + 1
+                if b[0] == "T":
+                    # the specification compiles without the display; with it the compiler dies of an internal error
+                    bad += 1
+                    ctx.violation({"kind": "display-compile-crash", "error": nm,
+                                   "loop_mixes_leader_and_follower_levels": any(mixes_leader_and_follower_levels(it["mapping"], o) for o in it["mapping"].get("spacetime", {}))},
+                                  "the specification compiles without a spacetime, adding one makes the compiler raise %s" % a[1][:200],
+                                  {"yaml": it["yaml"], "error": a[1]}, no_input=True)
             continue
-        except Exception as e:
-            stats["crashed"][type(e).__name__] = stats["crashed"].get(type(e).__name__, 0) + 1
-            continue
+        spec = runlib.Spec(it["yaml"])
+        text = a[1]
         if any(specgen.take_selected_lacks_rank(s) for s in spec.structs):
             continue
-        st = it["spacetime"]
         stats["by_kind"][it["kind"]] = stats["by_kind"].get(it["kind"], 0) + 1
-        stats["slip"] += 1 if st.get("opt") else 0
-        stats["coord_style"] += 1 if any(".coord" in x for x in st["space"] + st["time"]) else 0
-        loop = [x.split(".")[0] for x in st["space"] + st["time"]]
-        lo = (it["mapping"].get("loop-order") or {}).get(spec.outs[0]) or loop
-        wo = well_ordered(lo)
+        stats["slip"] += 1 if any(st.get("opt") for st in sts) else 0
+        stats["coord_style"] += 1 if any(".coord" in x for st in sts for x in st["space"] + st["time"]) else 0
+        wo = True
+        for o, st in (it["mapping"].get("spacetime") or {}).items():
+            loop = [x.split(".")[0] for x in st["space"] + st["time"]]
+            lo = (it["mapping"].get("loop-order") or {}).get(o) or loop
+            wo = wo and well_ordered(lo)
         stats["well_ordered"] += 1 if wo else 0
-        ext = runlib.default_extents(spec, rng, 1, 5)
-        data, scal = runlib.gen_inputs(spec, ext, rng, density=rng.choice([1.0, 0.6]))
-        cases.append(execlib.Case(spec, text, ext, data, scal, extra_ints=it["syms"], meta={"kind": it["kind"], "spacetime": st, "well_ordered": wo}))
+        paired = it["kind"].startswith(("affine", "cascade"))
+        nin = 1
+        differs = None
+        if b[0] == "T":
+            ca, cb = displaystrip.computation(text), displaystrip.computation(b[1])
+            if ca == cb:
+                stats["static_display_only"] += 1
+            else:
+                differs = displaystrip.first_difference(ca, cb)
+                paired = True
+                nin = 12                       # targeted failing-input search
+                static_bad.append((it, text, differs, k))
+        else:
+            stats["plain_rejected"] += 1
+            paired = False
+        for _ in range(nin):
+            if "mixed" in it:
+                ext = specgen_mixed.mixed_extents(rng, it["mixed"], 1, 4)
+            elif it["kind"].startswith("affine"):
+                ext = specgen.affine_extents(rng, it["es"])
+            else:
+                ext = runlib.default_extents(spec, rng, 1, 5)
+            data, scal = runlib.gen_inputs(spec, ext, rng, density=rng.choice([1.0, 0.6]))
+            meta = {"kind": it["kind"], "spacetime": sts, "well_ordered": wo, "paired": paired, "item": k}
+            c = execlib.Case(spec, text, ext, data, scal, extra_ints=it["syms"], meta=meta)
+            cases.append(c)
+            if paired:
+                pspec = runlib.Spec(it["plain_yaml"])
+                c.twin = execlib.Case(pspec, b[1], ext, data, scal, extra_ints=it["syms"], meta={"kind": it["kind"], "twin": True})
+                cases.append(c.twin)
+                stats["paired_executions"] += 1
     execlib.evaluate(cases, "c16")
-    bad = 0
     nact = 0
+    failed_items = set()
     for c in cases:
+        if c.meta.get("twin"):
+            continue
         r = c.result
+        p = c.twin.result if c.meta["paired"] else None
+        before = bad
         if r["status"] != "RAN":
+            if p is not None and p["status"] == r["status"] and p.get("unbound", p.get("err")) == r.get("unbound", r.get("err")):
+                stats["plain_fails_too"] += 1          # not the display's doing (C04/C06 report these)
+                continue
             bad += 1
-            key = {"kind": "execution-error", "coord_stamp_on_flattened_rank": coord_on_flat(c.spec, c.meta["spacetime"])}
+            key = {"kind": "execution-error", "coord_stamp_on_flattened_rank": any(coord_on_flat(c.spec, st) for st in c.meta["spacetime"])}
             if not key["coord_stamp_on_flattened_rank"]:
                 key["error"] = r.get("err", r["status"])[:40]
-            ctx.violation(key, "graphics-mode program cannot be executed: %s" % r, c.replay())
+            ctx.violation(key, "graphics-mode program cannot be executed%s: %s" % (" (the program without the spacetime runs)" if p is not None else "", r), c.replay())
+            failed_items.add(c.meta["item"])
             continue
-        if r["out"] != "OK" or r["inp"] != "OK":
+        if p is not None:
+            if p["status"] != "RAN":
+                stats["plain_fails_too"] += 1
+            elif r["out"] != p["out"] or r["inp"] != p["inp"]:
+                bad += 1
+                ctx.violation({"kind": "spacetime-changes-result"}, "adding a spacetime changed the computed tensors: with [%s %s] without [%s %s]" % (r["out"][:200], r["inp"], p["out"][:200], p["inp"]), c.replay())
+                failed_items.add(c.meta["item"])
+                continue
+            elif r["out"] != "OK":
+                stats["plain_wrong_too"] += 1
+        elif r["out"] != "OK" or r["inp"] != "OK":
             bad += 1
             ctx.violation({"kind": "spacetime-changes-result"}, "adding a spacetime changed the computed tensors: %s %s" % (r["out"][:200], r["inp"]), c.replay())
+            failed_items.add(c.meta["item"])
             continue
-        m = re.match(r'^(\d+)/(\d+),([TF]),([TF])$', r["extra"][0])
+        m = re.match(r'^(\d+)/(\d+),([TF]),([TF]),(\d+),(\d+)$', r["extra"][0])
         acts, upds, arity, distinct = int(m.group(1)), int(m.group(2)), m.group(3), m.group(4)
+        shown, ncanvas = int(m.group(5)), int(m.group(6))
         nact += acts
+        nst = len(c.meta["spacetime"])
+        if nst < len(c.spec.outs):
+            # a cascade in which only some Einsums are displayed: one canvas per displayed Einsum, one activity per update executed under it
+            if ncanvas != nst:
+                bad += 1
+                ctx.violation({"kind": "canvas-count"}, "%d canvases created for %d Einsums with a spacetime" % (ncanvas, nst), c.replay())
+                failed_items.add(c.meta["item"])
+                continue
+            upds = shown
         if acts != upds:
             bad += 1
             ctx.violation({"kind": "activity-count"}, "%d activities reported for %d executed updates" % (acts, upds), c.replay())
@@ -99,13 +225,27 @@ def run(ctx):
         elif distinct != "T" and c.meta["well_ordered"]:
             bad += 1
             ctx.violation({"kind": "duplicate-stamp"}, "two activities carry the same (space, time) stamp", c.replay())
+        if bad != before:
+            failed_items.add(c.meta["item"])
+    # the static side condition: broken, and no failing input among the targeted executions
+    for it, text, differs, k in static_bad:
+        if k in failed_items:
+            continue
+        bad += 1
+        ctx.violation({"kind": "display-changes-computation-text"},
+                      "with the display statements removed the program differs from the one compiled without a spacetime (line %d: `%s` vs `%s`); unbound positions: %s; 12 paired executions agree"
+                      % (differs[0], differs[1], differs[2], displaystrip.unbound_positions(text)),
+                      {"yaml": it["yaml"], "text": text, "difference": differs, "obligation": "displaystrip.computation(with) == displaystrip.computation(without)"}, no_input=True)
     distinct_p = len(set(c.text for c in cases))
     ctx.coverage.update({
         "programs": distinct_p, "executions": len(cases), "disagreements_checked": bad, "evaluations": len(cases), "distinct_nontrivial": distinct_p,
         "population": stats, "activities_observed": nact,
-        "rule": "C01-C03 populations + a spacetime stamping every loop rank: random space/time split, random time order, styles default/.pos/.coord per rank, slip 30%; one execution each",
+        "rule": "C01-C03 populations + multi-level occupancy with a different leader per level (40% of all these with their ranks renamed away from J,K,M,N) + C04's index-arithmetic population (shape partitioning with follow) + mixed cascades, each with a spacetime stamping every loop rank: random space/time split, "
+                "random time order, styles default/.pos/.coord per rank, slip 30%; static: display-stripped text == text compiled without the spacetime (every specification); "
+                "one execution each against the oracle; index-arithmetic and cascade programs executed in pairs with/without the spacetime on identical inputs",
         "samples": [{"yaml": cases[0].spec.yaml, "result": cases[0].raw}],
-        "trusted_base": ["Coq 8.16.1 kernel + VM", "Model/Rt.v + Model/Interp.v (recording canvas stand-ins) + Model/Harness.v canvas_report", "tools/py2coq.py", "Model/Einsum.v"],
+        "trusted_base": ["Coq 8.16.1 kernel + VM", "Model/Rt.v + Model/Interp.v (recording canvas stand-ins) + Model/Harness.v canvas_report", "tools/py2coq.py", "Model/Einsum.v",
+                         "tools/displaystrip.py (which statements are display-only)"],
     })
 
 
